@@ -92,6 +92,7 @@ pub fn run(args: &[String]) -> i32 {
         "C11" => c11(&a),
         "C12" => crate::h_sum::run(&a),
         "C13" => crate::h_comb::run(&a),
+        "C14" => crate::h_report::run(&a),
         "C15" => crate::h_filter::run(&a),
         "C16" => crate::h_outline::run(&a),
         "C17" => crate::h_step::run(&a),
@@ -119,6 +120,7 @@ pub fn replay(j: &serde_json::Value) -> i32 {
         }
         "C12" => crate::h_sum::replay(j),
         "C13" => crate::h_comb::replay(j),
+        "C14" => crate::h_report::replay(j),
         "C15" => crate::h_filter::replay(j),
         "C16" => crate::h_outline::replay(j),
         "C17" => crate::h_step::replay(j),
